@@ -26,6 +26,9 @@ pub enum Call {
     GetLine(u32),
     LineCount,
     Lines,
+    /// `view.clone()` taken while other threads use the view, then `lines()` and `line_count()` on
+    /// the clone (free-running stress only: a clone has no yield point of its own)
+    CloneLines,
 }
 
 #[derive(Clone, Debug, Hash, Serialize, Deserialize)]
@@ -167,6 +170,17 @@ fn perform(view: &SourceView, call: Call) -> Answer {
         Call::GetLine(i) => Answer::Line(view.get_line(i).map(str::to_string)),
         Call::LineCount => Answer::Count(view.line_count()),
         Call::Lines => Answer::All(view.lines().map(str::to_string).collect()),
+        Call::CloneLines => {
+            let c = view.clone();
+            let n = c.line_count();
+            let all: Vec<String> = c.lines().map(str::to_string).collect();
+            // the count is part of the answer: a clone that indexes a tail twice shows in either
+            if n != all.len() {
+                Answer::Count(n)
+            } else {
+                Answer::All(all)
+            }
+        }
     });
     match r {
         Ok(a) => a,
@@ -179,7 +193,7 @@ fn expected(text: &str, call: Call) -> Answer {
     match call {
         Call::GetLine(i) => Answer::Line(lines.get(i as usize).map(|s| s.to_string())),
         Call::LineCount => Answer::Count(lines.len()),
-        Call::Lines => Answer::All(lines.iter().map(|s| s.to_string()).collect()),
+        Call::Lines | Call::CloneLines => Answer::All(lines.iter().map(|s| s.to_string()).collect()),
     }
 }
 
@@ -739,10 +753,11 @@ fn run_stress(ctx: &mut Ctx) {
                 let view = view.clone();
                 let barrier = barrier.clone();
                 let tid = tids[t].clone();
-                let calls: Vec<Call> = match (t as u64 + round) % 4 {
+                let calls: Vec<Call> = match (t as u64 + round) % 5 {
                     0 => vec![Call::GetLine(nlines - 1), Call::LineCount],
                     1 => vec![Call::LineCount, Call::GetLine(0)],
                     2 => vec![Call::GetLine(nlines), Call::GetLine((t as u32) % nlines)],
+                    3 => vec![Call::CloneLines, Call::GetLine(nlines)],
                     _ => vec![Call::Lines],
                 };
                 std::thread::spawn(move || {
